@@ -30,7 +30,8 @@ CLAIMS = {
           "(one upstream callback then release; continuation; successful re-arm and return 0; fatal release), no use after release, "
           "cancel routines cover every registration kind that can be pending; plus the structural necessary conditions of "
           "byte-exactness: MSG_NOSIGNAL, the exact would-block errno set, EOF routing, identical re-arm, address-cursor advance, "
-          "and the transfer window buf+bufpos/buflen-bufpos with bufpos advanced by exactly the kernel's answer. All kernel answer "
+          "and the transfer window buf+bufpos/buflen-bufpos with bufpos advanced by exactly the kernel's answer; a registration is "
+          "stored only into a slot that is empty on that path (interprocedural through the callers' states). All kernel answer "
           "sequences reduce to which CFG edges are taken, and every edge is analysed.",
   "note": "Trusted: recv/send/accept/connect contracts, the REARM/CANCEL tables. Not decided: kernel behaviour; allocation-failure "
           "'fatal' paths are accepted as a disposition (C14 covers their leak discipline).",
@@ -43,7 +44,8 @@ CLAIMS = {
           "a real heap over-read, now fixed); the body budget invariant bodylen + readlen <= limit proved from the dominating guards at "
           "every budget store and append with a tiny linear-fact domain (this rule located a real off-by-two assertion failure/overflow, "
           "now fixed); status gate 100..599 before any completion or body handler; freed request fields cleared before the request is "
-          "passed on. Hostile byte streams only choose CFG edges, and all edges are analysed.",
+          "passed on; the writer's no-orphan rule (shared with C07). Hostile byte streams only choose CFG edges, and all edges are "
+          "analysed.",
   "note": "Trusted: the reader's peek window is exactly buflen readable bytes; libc strto*/sscanf semantics. Not decided: the "
           "line-splitting assertions in header parsing (a counting argument E3 cannot carry), termination, success-path leaks.",
   "technique": "static analysis: typestate (linearity), taint (unterminated window), linear-fact dataflow (budget invariant) on clang CFG",
@@ -54,7 +56,8 @@ CLAIMS = {
           "stale after a consume, across tail calls and later events (this rule located a real defect with 1xx interim responses, now "
           "fixed); request head length equals the pieces copied, piece for piece and loop for loop, in wire-grammar order, head before "
           "body; framing precedence HEAD/204/304 > chunked > Content-Length > EOF; the body budget shared with C08 so that bodies at "
-          "the limit decode.",
+          "the limit decode; every character class accepted ahead of a numeric conversion is a digit class of the radix converted "
+          "with (chunk sizes hexadecimal, Content-Length decimal).",
   "note": "Not decided: header name/value extraction, OWS trimming and chunk reassembly as string semantics; these quantify over "
           "byte values and are outside shape-level rules.",
   "technique": "static analysis: stale-cursor typestate over the continuation graph, length/piece multiset agreement, dominance rules",
@@ -66,7 +69,7 @@ CLAIMS = {
           "exactly, the transport never asked for zero bytes (this rule located a real assertion failure on zero-length writes, now "
           "fixed; proved on the repaired code by a small disjunctive linear-fact domain), slot discipline of the three pending fields, "
           "the window expressions given to the transport/peek/reserve, the order of the compaction triple, status routing and the "
-          "immediate-success condition. Necessary conditions of stream preservation; the refinement itself is not decided.",
+          "immediate-success condition; a buffer taken off the queue is launched, freed or still reachable (no orphan). Necessary conditions of stream preservation; the refinement itself is not decided.",
   "note": "Trusted: network_read/write contracts (C06), STAILQ macros. Assumed (recorded in evidence): the reader's capacity "
           "buflen - datalen is non-zero at its launch, which follows from the three window adjustments by an argument the fact domain "
           "cannot carry. Not decided: equality of the delivered byte sequence with the sent one over all histories.",
@@ -87,8 +90,9 @@ CLAIMS = {
   "design_ref": "DESIGN.md section 4, C15",
  },
  "C16": {
-  "text": "Necessary conditions of exact numeric parsing decided structurally: unsigned conversions must inspect the sign (this rule "
-          "located a real wraparound on negative numerals, now fixed); the three parsenum siblings have the same decision structure "
+  "text": "Necessary conditions of exact numeric parsing decided structurally: unsigned conversions must inspect the sign, and the sign "
+          "test must be reached for every non-zero converted value, not only part of the range (this rule located a real wraparound "
+          "on negative numerals, now fixed); the three parsenum siblings have the same decision structure "
           "(EINVAL exactly on no-digits or unwanted trailing characters, else ERANGE on the bound tests, errno cleared first); "
           "humansize_parse accumulates only behind UINT64_MAX guards, covers its states, maps SI prefixes to the right power of 1000.",
   "note": "Trusted: strtod/strtoimax/strtoumax. Not decided: value exactness of libc conversions, the PARSENUM type-classification "
@@ -99,9 +103,10 @@ CLAIMS = {
  "C17": {
   "text": "The 12 endian routines are decided completely by bit-level symbolic evaluation of their expressions (every value, any "
           "alignment). Alphabets are compared with values derived independently from RFC 4648 and the digit definition; decoders' "
-          "masks, nibble order and padding are checked; every JSON list walker must skip whitespace after a separator (this rule "
-          "located a real defect in nested arrays/objects, now fixed); serialize/deserialize/dup/cmp agree on sock_addr's fields and "
-          "sizes; printers emit the form the resolver accepts.",
+          "masks, nibble order and padding are checked; every JSON list walker must skip whitespace after a separator or an opening "
+          "bracket (this rule located a real defect in nested arrays/objects, now fixed); serialize/deserialize/dup/cmp agree on "
+          "sock_addr's fields and sizes; printers emit the form the resolver accepts and both classify address families by the same "
+          "tests.",
   "note": "Not decided: round-trip equality of base-64/hex over all strings, JSON key matching semantics, inet_pton/inet_ntop.",
   "technique": "static analysis: bit-level symbolic evaluation (normal forms), constant tables vs. standards, sibling agreement",
   "design_ref": "DESIGN.md section 4, C17",
@@ -111,7 +116,8 @@ CLAIMS = {
           "record it hands out; cancel never leaves a slot pointing at a released record; one invoker calls once and releases; "
           "register/cancel/get agree on the (operation, slot, poll bit) triples; registration bits and readiness bits are cleared "
           "together and the error widening adds only registered bits; timer deadlines are monotonic-clock + stored delta from success "
-          "edges and are released only on the not-later edge of comparators evaluated on all nine orderings.",
+          "edges and are released only on the not-later edge of comparators evaluated on all nine orderings; the timer heap's "
+          "handle-consistency rules (C13 H1-H3) are run here too, since a cancel through a stale handle removes the wrong timer.",
   "note": "Trusted: poll(2), monoclock_get, TAILQ macros, heap order (C13). Not decided: the pollfd/socket-list compaction "
           "invariants and the scan cursor under compaction (need an inductive relational array invariant no installed tool carries).",
   "technique": "static analysis: take-and-clear/ownership rules, sibling mapping agreement, abstract evaluation of comparators",
@@ -121,10 +127,11 @@ CLAIMS = {
   "text": "Order and propagation clauses decided on every path of the dispatch loop: a must-analysis of 'queues observed empty since "
           "the last dispatch/poll' proves priority by construction at every fetch and at the blocking poll; status is stored, tested, "
           "returned unchanged and stops dispatch; an interrupt test sits between any two dispatches; a fetched event is always "
-          "dispatched; the loop never blocks after a dispatch; immediate queues insert at the tail, remove at the head, and minq moves "
-          "only past queues tested empty.",
-  "note": "Trusted: TAILQ macros, poll(2). Not decided: poll timeout arithmetic (millisecond round-up), deadline order of timers "
-          "(C13/C04), wall-clock waiting.",
+          "dispatched; the loop never blocks after a dispatch; a network event is fetched only from a poll made after the last "
+          "dispatch; the blocking time is zero exactly when the earliest deadline has passed and otherwise deadline - now with borrow, "
+          "rounded up to milliseconds (decided by walking the comparison code under every ordering); immediate queues insert at the "
+          "tail, remove at the head, and minq moves only past queues tested empty.",
+  "note": "Trusted: TAILQ macros, poll(2). Not decided: deadline order of timers (C13/C04), wall-clock waiting.",
   "technique": "static analysis: must-dataflow over the dispatch loop's CFG, status/interrupt typestate, queue-discipline rules",
   "design_ref": "DESIGN.md section 4, C05",
  },
@@ -133,7 +140,9 @@ CLAIMS = {
           "that index (bulk constructor: a loop over every index, after heapifying), the notifier/cookie/comparator are forwarded "
           "unchanged to every helper, add announces nelems-1, delete fills the hole from the last slot; the timer queue uses the "
           "position its notifier stored in the record the caller's cookie designates and stores/returns exactly the caller's pointer; "
-          "parent/child index arithmetic is guarded and the sift loops use the comparator with the documented sign.",
+          "parent/child index arithmetic is guarded and the sift loops use the comparator with the documented sign; deletion can "
+          "sift the moved element in both directions, upward exactly when it is smaller than its parent; the underlying array's "
+          "resize contract (C12) is run here too.",
   "note": "Trusted: the elastic-array wrappers. Not decided: that sifting restores the heap order for every operation history "
           "(inductive array invariant); comparator totality is C04's O6.",
   "technique": "static analysis: structural pairing (slot write / notification), argument provenance, guarded index normal forms",
@@ -143,10 +152,11 @@ CLAIMS = {
   "text": "Guards and layout shapes only: every run-time size product/sum behind its SIZE_MAX guard (doubling sites are named "
           "exceptions with their repair tests), public getters reach storage only in range, ELASTICARRAY_DECL wrappers agree on the "
           "record size, the byte-layout expressions of append/get/getsize/shrink/export and the queue/map bookkeeping steps, and the "
-          "pool's atexit registration and stack discipline. These are necessary conditions; the refinement of the ideal models is "
-          "explicitly not decided.",
+          "pool's atexit registration and stack discipline; resize() records the requested size on every success return and shrink "
+          "records it itself when resize() fails; the containers' failure atomicity (C14's ATOMIC) is run here as well. These are "
+          "necessary conditions; the refinement of the ideal models is explicitly not decided.",
   "note": "Not decided: equality with the ideal array/queue/map over operation histories, FIFO order, the factor-4 bound, 'never "
-          "hands out an object in use' beyond push/pop discipline (invariants over unbounded histories). Failure atomicity is C14.",
+          "hands out an object in use' beyond push/pop discipline (invariants over unbounded histories).",
   "technique": "static analysis: overflow-guard dominance, in-range edge rules, sibling agreement, structural layout expressions",
   "design_ref": "DESIGN.md section 4, C12",
  },
@@ -176,7 +186,9 @@ CLAIMS = {
           "clock sample formatted twice (UTC), the HMAC key chain date->region->service->aws4_request->string-to-sign with each key the "
           "previous output, canonical-request self-consistency (lower-case sorted header names = signed-headers line = SignedHeaders= in "
           "the result; credential scope signed = scope returned; payload hash = hex(SHA-256(body, body ? bodylen : 0)) = returned "
-          "content hash; returned timestamp = signed timestamp; presigned query parameters sorted and returned plus the signature).",
+          "content hash; returned timestamp = signed timestamp; presigned query parameters sorted and returned plus the signature); "
+          "no signing function keeps state between calls (no static storage written), so a result depends on its arguments and the "
+          "clock only; the HMAC-SHA256 structure rules of C01 are run on the units the signature depends on.",
   "note": "Trusted: strftime/gmtime_r, HMAC_SHA256_Buf/SHA256_Buf/hexify (C01/C17 clauses). Not decided: the numeric signature "
           "bytes against an independent implementation (value equality), percent-encoding (the interface does none).",
   "technique": "static analysis: symbolic rendering of format templates + argument provenance and chain rules",
@@ -187,10 +199,12 @@ CLAIMS = {
           "independently from its defining formula; each of the 16+80+64 unrolled round statements of SHA-256/SHA-1/MD5 has the "
           "specification's register rotation, rotate amounts, boolean function (compared as a truth table), message index and constant; "
           "schedules, padding, length placement, HMAC pads/threshold/lengths, PBKDF2's block index/iteration/truncation structure, "
-          "CRC32C's polynomial, initial state, table generator and step pairing; block-buffer writes are bounded. Every output bit "
-          "depends on these; they are necessary conditions of bit-exactness.",
+          "CRC32C's polynomial, initial state, table generator and step pairing; block-buffer writes are bounded; every argument "
+          "passed for a `T p[static N]` parameter designates N elements and restrict-qualified scratch regions of one call never "
+          "overlap; the two-word bit counters of SHA-1/MD5 (shift, carry test, high word, word order) and SHA-256's widened counter "
+          "are the specification's. Every output bit depends on these; they are necessary conditions of bit-exactness.",
   "note": "NOT decided: that the composition equals the standard functions for every message and partition (numerical equality "
-          "over all inputs), carry handling of the bit counters, one-shot/streaming agreement. Trusted: uint32_t arithmetic wraps.",
+          "over all inputs), one-shot/streaming agreement as an equality of outputs. Trusted: uint32_t arithmetic wraps.",
   "technique": "static analysis: constants vs. independently derived standards, structural decomposition of round statements (normal forms/truth tables)",
   "design_ref": "DESIGN.md section 4, C01",
  },
@@ -198,8 +212,9 @@ CLAIMS = {
   "text": "Structural clauses of the AES-CTR stream decided for both sibling implementations: the counter block is written only by "
           "the agreed nonce/counter writers and fed to the cipher as nonce_be64 || blockindex_be64; each byte range is read before it is "
           "written (in-place safety); re-initialisation resets position, nonce and the low-byte idiom on every path; the keystream "
-          "position bookkeeping (offset bytectr % 16, partial/whole/tail structure, cursors moving by exactly the bytes used, AES-NI "
-          "write-back of the last counter) agrees between the portable and the AES-NI code.",
+          "position bookkeeping (offset bytectr % 16, partial/whole/tail structure, cursors moving by exactly the bytes used; the AES-NI "
+          "loop re-encodes its block counter once per block inside the loop and writes the last counter back) agrees between the "
+          "portable and the AES-NI code.",
   "note": "NOT decided: FIPS-197 equality of the block cipher (OpenSSL / AES-NI numerics), partition independence and "
           "encrypt-twice-restores as equalities of byte strings, counter carry beyond the low byte as a value property.",
   "technique": "static analysis: who-may-write rule, sibling agreement, dominance/order rules on clang CFG",
@@ -211,10 +226,13 @@ CLAIMS = {
           "behind the run-time test of every feature its unit is compiled for and a passing self-test whose call tree contains the "
           "routine being enabled; an uninitialised selector defaults to the portable path; thresholds imply the accelerated routines' "
           "preconditions; ISA flags appear only on accelerated units; sibling dispatchers agree on the selector and the accelerated "
-          "branch excludes the portable one.",
+          "branch excludes the portable one; the accelerated units use no sign-dependent vector operation and their byte-swap "
+          "shuffles are byte swaps (the one class of error the library's self-test vectors, which have no byte with the top bit "
+          "set, cannot see); the AES-NI CTR sibling obeys C02's counter rules.",
   "note": "NOT decided: bit-equality of accelerated and portable results for all inputs -- delegated to the library's own run-time "
           "self-tests, whose wiring is what G2 verifies (a wrong constant in an accelerated transform is caught there and falls back, "
-          "so the property still holds; no table rule is armed for those units). ARM units cannot be parsed on this host.",
+          "so the property still holds; no table rule is armed for those units) and whose known blind spot G5 closes. ARM units "
+          "cannot be parsed on this host.",
   "technique": "static analysis: control-dependence (guarded dispatch), dominance of validation, call-tree membership, Makefile flag audit",
   "design_ref": "DESIGN.md section 4, C03",
  },
